@@ -122,13 +122,22 @@ func TestProp(t *testing.T) {
 		r.Violation("C19|sample-rejected", fmt.Sprintf("the AD-issued sample PAC is rejected under its real key: %v %s", err, pv), map[string]any{"case": "sample"})
 		return
 	}
-	known.LogOn, known.PwdLastSet = a0.LogOn, a0.PwdLastSet // times are not asserted by the vectors for this PAC instance; kept constant across mutants
+	// logon and password times are not asserted by the repository's vectors: read them at their fixed offsets
+	if sb, _, err := pac.Parse(pac.SampleBytes()); err == nil {
+		if _, li := logonInfoOf(sb); li != nil && offsetsSelfCheck(li) == nil {
+			known.LogOn, known.PwdLastSet = ftTime(binary.LittleEndian.Uint64(li[offLogon:])), ftTime(binary.LittleEndian.Uint64(li[offPwdLastSet:]))
+		} else {
+			r.Inconclusive("logon info offsets self-check failed on the sample")
+			return
+		}
+	}
 	if a0.String() != known.String() {
 		r.Violation("C19|attributes|sample", "attributes of the unmodified sample differ from its known contents", map[string]any{"case": "sample", "got": a0.String(), "known": known.String()})
 		return
 	}
 	r.Inc("sample_attributes_equal_known")
 	bufs, _, _ := pac.Parse(pac.SampleBytes())
+	patchedAttributeCases(r, bufs)
 
 	type variant struct {
 		name string
@@ -375,11 +384,23 @@ func viaTicket(t *testing.T, r *vh.Run, bufs []pac.Buf) {
 			r.Inconclusive("sign: " + err.Error())
 			return
 		}
-		cases := []struct {
+		type tcase struct {
 			name string
 			pac  []byte
 			dec  bool
-		}{{"good", good, true}, {"bad-bit", pac.FlipSignedBit(good, rnd), true}, {"bad-sig", flipSig(good), true}, {"bad-bit-decoding-off", pac.FlipSignedBit(good, rnd), false}, {"good-decoding-off", good, false}}
+			want attrs
+		}
+		cases := []tcase{{"good", good, true, known}, {"bad-bit", pac.FlipSignedBit(good, rnd), true, known}, {"bad-sig", flipSig(good), true, known},
+			{"bad-bit-decoding-off", pac.FlipSignedBit(good, rnd), false, known}, {"good-decoding-off", good, false, known}}
+		for pi := 0; pi < 6; pi++ {
+			b2, want := patchedAttributes(bufs, rnd)
+			g2, err := pac.Sign(b2, st, skey, st, kmsg.Key{Type: et, Value: pcommon.RefKey(rnd, et)}, nil)
+			if err != nil {
+				r.Inconclusive("sign: " + err.Error())
+				return
+			}
+			cases = append(cases, tcase{fmt.Sprintf("good-patched-attributes-%d", pi), g2, true, want})
+		}
 		for ci, cs := range cases {
 			key := fmt.Sprintf("%s/%s", ck, cs.name)
 			r.Eval(key, true)
@@ -434,7 +455,7 @@ func viaTicket(t *testing.T, r *vh.Run, bufs []pac.Buf) {
 				r.Violation("C19|getpactype|"+cs.name, fmt.Sprintf("Ticket.GetPACType: isPAC=%v err=%v, reference: %v", isPAC, gerr, want), d)
 				continue
 			}
-			if gerr == nil && ga.String() != known.String() {
+			if gerr == nil && ga.String() != cs.want.String() {
 				r.Violation("C19|getpactype|attributes", "GetPACType exposes other attributes than the sample's", d)
 				continue
 			}
@@ -447,10 +468,7 @@ func viaTicket(t *testing.T, r *vh.Run, bufs []pac.Buf) {
 			if okv && cs.dec {
 				ad := fromAD(creds.GetADCredentials())
 				sort.Strings(ad.Groups)
-				kg := append([]string{}, known.Groups...)
-				sort.Strings(kg)
-				k2 := known
-				k2.Groups = kg
+				k2 := sortedGroups(cs.want)
 				if ad.String() != k2.String() {
 					d["got"], d["known"] = ad.String(), k2.String()
 					r.Violation("C19|verifyapreq|adcredentials", "ADCredentials attached to the identity differ from the attributes encoded in the verified PAC", d)
